@@ -251,6 +251,12 @@ func c14World(rc *kernel.RunCtx) {
 	if dev {
 		coldDevCache()
 	}
+	// css components and scripts whose arguments this process has never seen: their class names
+	// and function names are computed for the first time in the concurrent phase
+	freshComp := func(i int) templ.Component {
+		v := fmt.Sprintf("fresh-%d-%d", rc.Run, i)
+		return templ.Join(corpus.ClassInline(v), corpus.ScriptInline(v), corpus.ClassInline(v))
+	}
 	// once handles nobody has used yet: their first use happens in the concurrent phase
 	u2 := newUniverse(3)
 	ntasks := t.Range(2, rc.Param("max_tasks", 6), "ntasks")
@@ -260,7 +266,10 @@ func c14World(rc *kernel.RunCtx) {
 		m := t.Range(1, rc.Param("max_renders", 4), "nrenders")
 		for j := 0; j < m; j++ {
 			r := &c14render{Spec: t.Choose(nspec, "spec"), FailAt: -1}
-			r.Kind = []string{"render", "render", "shared", "http", "mw", "httpfail", "bare"}[t.Choose(7, "kind")]
+			r.Kind = []string{"render", "render", "shared", "http", "mw", "httpfail", "bare", "fresh"}[t.Choose(8, "kind")]
+			if r.Kind == "fresh" {
+				r.Spec = t.Choose(2, "fresh-value") // which of the run's two never-seen-before values
+			}
 			if faultsLeft > 0 && r.Kind == "render" && t.Chance(1, 3, "faulty") {
 				faultsLeft--
 				if t.Bool("fault-writer") && len(docs[r.Spec]) > 0 {
@@ -293,6 +302,10 @@ func c14World(rc *kernel.RunCtx) {
 					rec := newRecorder()
 					templ.Handler(shared[r.Spec]).ServeHTTP(parkRecorder{rec, park}, httptest.NewRequest(http.MethodGet, "/", nil))
 					r.got, r.status = rec.body.Bytes(), rec.status
+				case "fresh":
+					w := &core{park: park, limit: 4 << 20}
+					r.err = freshComp(r.Spec).Render(context.Background(), w.as(kn.WKind))
+					r.got, w.done = w.got, true
 				case "bare":
 					w := &core{park: park, limit: 4 << 20}
 					r.err = bare.Render(context.Background(), w.as(kn.WKind))
@@ -351,14 +364,26 @@ func c14World(rc *kernel.RunCtx) {
 	nfired := 0
 	for i, rs := range plan {
 		for j, r := range rs {
-			D := docs[r.Spec]
+			spi := r.Spec
+			if r.Kind == "fresh" {
+				spi = 0 // r.Spec names the value, not a spec
+			}
+			D := docs[spi]
 			if r.Kind == "mw" {
-				D = mwDocs[r.Spec]
+				D = mwDocs[spi]
 			}
 			if r.Kind == "bare" {
 				D = bareDoc
 			}
-			what := fmt.Sprintf("task %d render %d (%s of %s, dev=%v, knobs %+v, %d tasks)", i, j, r.Kind, specs[r.Spec], dev, kn, ntasks)
+			if r.Kind == "fresh" {
+				var sb strings.Builder
+				if err := freshComp(r.Spec).Render(context.Background(), &sb); err != nil {
+					rc.Fail("C14/clean-render-error", "solo render of the fresh-values page: %v", err)
+					continue
+				}
+				D = []byte(sb.String())
+			}
+			what := fmt.Sprintf("task %d render %d (%s of %s, dev=%v, knobs %+v, %d tasks)", i, j, r.Kind, specs[spi], dev, kn, ntasks)
 			if r.fired {
 				nfired++
 				k.Count("fault_render_failed_midway", 1)
